@@ -27,7 +27,7 @@ func runGatedRandom(c *Ctx) {
 		rng := lab.NewRNG(c.Seed, 600000+uint64(i))
 		nk := 3 + rng.Intn(6)
 		cfg := lab.CacheCfg{NumCounters: 100, BufferItems: 64, KeyKind: lab.Pick(rng, []string{"uint64", "string", "int"}), NKeys: nk,
-			SetBuf: []int{0, 0, 4, 1, 2}[i%5], Metrics: prop == "C17" || i%2 == 0, IgnoreInternalCost: i%3 == 0}
+			SetBuf: []int{0, 0, 4, 1, 2}[i%5], Metrics: prop == "C17" || i%2 == 0, IgnoreInternalCost: i%3 == 0, KeyZero: i%4 == 3}
 		costs := []int64{1, 2, 3, 5}
 		if i%4 == 1 {
 			cfg.CostFn = "keycost"
